@@ -1006,6 +1006,7 @@ type vOp struct {
 	Missing []string   `json:"missing,omitempty"`
 	Order   []string   `json:"order,omitempty"`
 	Note    string     `json:"note,omitempty"`
+	Case    string     `json:"case,omitempty"`
 }
 
 func (s *vSim) rangesRefs(rs [][2]int) []hash.SHA256Hash {
